@@ -38,12 +38,14 @@ package keeper
 //@ define mcParams(ctx) := row(ctx, "masterchef:types.ParamsKey", "types.Params")
 //@ func (Keeper).CollectGasFees
 //@ decabstract
+//@ callers-assumed C13: the end-block step that splits the reported totals over the pools and hands them to the crediting function (UpdateLPRewards) is not under contract (DESIGN A.5)
 //@ assumes mcParams(ctx).RewardPortionForLps >= 0 && mcParams(ctx).RewardPortionForStakers >= 0 && mcParams(ctx).RewardPortionForLps + mcParams(ctx).RewardPortionForStakers <= 1000000000000000000
 //@ forall d Str
 //@ ensures C13/gas-fees-reported-for-lps-are-kept-by-the-reward-module: err == nil ==> (bal(ctx, modAddr("masterchef"), d) - old(bal(ctx, modAddr("masterchef"), d))) * 1000000000000000000 + 1000000000000000000 > amt(result0, d)
 
 //@ func (Keeper).CollectPerpRevenue
 //@ decabstract
+//@ callers-assumed C13: the end-block step that splits the reported totals over the pools and hands them to the crediting function (UpdateLPRewards) is not under contract (DESIGN A.5)
 //@ assumes mcParams(ctx).RewardPortionForLps >= 0 && mcParams(ctx).RewardPortionForStakers >= 0 && mcParams(ctx).RewardPortionForLps + mcParams(ctx).RewardPortionForStakers <= 1000000000000000000
 //@ forall d Str
 //@ ensures C13/perpetual-revenue-reported-for-lps-is-kept-by-the-reward-module: err == nil ==> (bal(ctx, modAddr("masterchef"), d) - old(bal(ctx, modAddr("masterchef"), d))) * 1000000000000000000 + 1000000000000000000 > amt(result0, d)
@@ -157,6 +159,7 @@ package keeper
 
 //@ func (Keeper).CollectDEXRevenue
 //@ decabstract
+//@ callers-assumed C13: the end-block step that splits the reported totals over the pools and hands them to the crediting function (UpdateLPRewards) is not under contract (DESIGN A.5)
 //@ forall d Str
 //@ assumes mcParams(ctx).RewardPortionForLps >= 0 && mcParams(ctx).RewardPortionForStakers >= 0 && mcParams(ctx).RewardPortionForLps + mcParams(ctx).RewardPortionForStakers <= 1000000000000000000
 // Inductive over the pools walked (any number): whatever has been added to the LPs' total so far has been
